@@ -75,7 +75,7 @@ extern "C" void h_write_hex()
 {
   Memory m;
   m.low_address = nondet_uint(); m.high_address = nondet_uint();
-  ASSUME(m.low_address <= m.high_address && m.high_address < 0xffffffff);
+  ASSUME(m.low_address <= m.high_address);   /* any range, including one that ends at 0xffffffff */
   g_low = m.low_address; g_high = m.high_address; g_W = nondet_uint(); g_W_written = nondet_int() & 1; g_W_val = nondet_uchar();
   g_seg = 0; g_w_emitted = 0; g_bad_checksum = 0; g_in_rec = 0; g_end_records = 0; g_w_byte = 0;
   int r = write_hex(&m, (FILE *)0);
